@@ -969,6 +969,35 @@ def leaf_syms(p, _seen=None):
     return syms, fns
 
 
+def constants_in(p):
+    """all rational coefficients appearing anywhere in ``p`` (nested arguments included)"""
+    out, seen = set(), set()
+
+    def walk(q):
+        k_ = q.key()
+        if k_ in seen:
+            return
+        seen.add(k_)
+        for m, c in q.t.items():
+            out.add(c)
+        for a in q.atoms():
+            k = a[0]
+            if k == 'sum':
+                walk(Poly.from_key(a[2]))
+            elif k == 'pow':
+                walk(Poly.from_key(a[1]))
+            elif k == 'ind':
+                walk(Poly.from_key(a[2]))
+            elif k == 'fn':
+                for x in a[2:]:
+                    if x[0] == 'P':
+                        walk(Poly.from_key(x[1]))
+                    elif x[0] == 'B':
+                        walk(Poly.from_key(x[2]))
+    walk(p)
+    return out
+
+
 def contains_atom(p, pred):
     found = []
 
